@@ -13,41 +13,6 @@ open Prog
 
 /-! ## Part 1 — loose refs -/
 
-def Op.target : Op → Ref
-  | .read r => r
-  | .get r => r
-  | .cas n _ _ => n
-  | .add n _ => n
-  | .rm n _ => n
-  | .symref n _ => n
-  | .commit r _ => r
-  | .commit1 r _ => r
-  | _ => 0
-
-/-- a loose value that is not a symbolic ref -/
-def IsSha : Option Val → Prop
-  | some (.sym _) => False
-  | _ => True
-
-/-- the operations of the loose fragment: direct reads, conditional/unconditional set, create, delete, all
-writing object ids -/
-def LooseOp : Op → Prop
-  | .read _ => True
-  | .cas _ _ (.sha _) => True
-  | .add _ (.sha _) => True
-  | .rm _ _ => True
-  | _ => False
-
-/-- The map specification restricted to the one ref an operation acts on: (new value, result). -/
-def specVal : Op → Option Val → Option Val × Outcome
-  | .read _, x => (x, .val x)
-  | .cas _ none new, _ => (some new, .bool true)
-  | .cas _ (some o) new, x => if x = o then (some new, .bool true) else (x, .bool false)
-  | .add _ v, x => if x.isSome then (x, .bool false) else (some v, .bool true)
-  | .rm _ none, _ => (none, .bool true)
-  | .rm _ (some o), x => if x = o then (none, .bool true) else (x, .bool false)
-  | _, x => (x, .unit)
-
 /-- what an actor has learnt about its ref since it took the lock -/
 inductive Know where
   | unknown
@@ -552,30 +517,6 @@ theorem compile_disc (env : Env) (vr : Variant) (op : Op) (hop : LooseOp op) (c 
   | _ => exact absurd hop (by simp [LooseOp])
 
 /-! ### the instrumented transition system -/
-
-structure LinEv where
-  actor : Actor
-  op : Op
-  out : Outcome
-
-def Outcome.isExc : Outcome → Bool
-  | .exc _ => true
-  | _ => false
-
-/-- One event of the sequential history: a loser (exception) has no effect; otherwise the operation must return
-what the specification says and the ref takes the specified value. -/
-def specStep (m : Ref → Option Val) (e : LinEv) : Option (Ref → Option Val) :=
-  if e.out.isExc then some m
-  else if (specVal e.op (m e.op.target)).2 = e.out then
-    some (upd m e.op.target (specVal e.op (m e.op.target)).1)
-  else none
-
-def specRun (m : Ref → Option Val) : List LinEv → Option (Ref → Option Val)
-  | [] => some m
-  | e :: es =>
-    match specStep m e with
-    | some m' => specRun m' es
-    | none => none
 
 structure IState where
   cfg : Config
@@ -1156,6 +1097,78 @@ theorem inv_init (env : Env) (vr : Variant) (loose0 : Ref → Option Val) (ops :
       rfl
   · intro a op _
     simp [IState.init, Phase.outcome]
+
+/-! ### every operation is linearized at most once -/
+
+def evCount (a : Actor) (log : List LinEv) : Nat := log.countP (fun e => e.actor == a)
+
+/-- at most one linearization event per actor; none before its phase has an outcome -/
+def Uniq (s : IState) : Prop :=
+  ∀ a, evCount a s.log ≤ 1 ∧ ((s.phs a).outcome = none → evCount a s.log = 0)
+
+theorem uniq_step (env : Env) (vr : Variant) (m0 : Ref → Option Val) (ops : List Op) (s s' : IState) (a : Actor)
+    (hinv : Inv m0 ops s) (hu : Uniq s) (hstep : istep env vr ops s a = some s') : Uniq s' := by
+  unfold istep at hstep
+  cases hst : s.cfg.actors[a]? with
+  | none => simp [hst] at hstep
+  | some st =>
+  cases hop : ops[a]? with
+  | none => simp [hst, hop] at hstep
+  | some op =>
+  cases hprog : st.prog with
+  | ret o c => simp [hst, hop, hprog] at hstep
+  | call c k =>
+  simp only [hst, hop, hprog, Option.some.injEq] at hstep
+  subst hstep
+  obtain ⟨_, hdisc, hcons, _, _⟩ := hinv.act a op st hop hst
+  rw [hprog] at hdisc
+  obtain ⟨hpre, _⟩ := disc_call.mp hdisc
+  have hsum := step_sum env op op.target a (s.phs a) s.cfg.fs c hpre hinv.packed hinv.nosym hcons
+    (hinv.holdsLock a op hop)
+  have hlin := hsum.lin
+  generalize nextPhase op op.target (s.phs a) c (exec env s.cfg.fs a c).2 (s.cfg.fs.loose op.target) = ph' at *
+  intro b
+  simp only [evCount, List.countP_append]
+  by_cases hba : b = a
+  · subst hba
+    simp only [if_true]
+    obtain ⟨h1, h2⟩ := hu b
+    unfold linEvent
+    cases ho : (s.phs b).outcome with
+    | none =>
+      have h0 := h2 ho
+      simp only [evCount] at h0
+      cases ho' : ph'.outcome with
+      | none => simp [h0]
+      | some o => simp [h0, List.countP_cons]
+    | some o =>
+      rw [ho] at hlin
+      cases ho' : ph'.outcome with
+      | none => rw [ho'] at hlin; exact hlin.elim
+      | some o' =>
+        simp only [evCount] at h1
+        simp [h1]
+  · simp only [hba, if_false]
+    obtain ⟨h1, h2⟩ := hu b
+    have hz : (linEvent a op (s.phs a) ph').countP (fun e => e.actor == b) = 0 := by
+      rw [List.countP_eq_zero]
+      intro e he
+      have := (linEvent_mem he).1
+      simp only [this, beq_iff_eq]
+      exact fun e => hba e.symm
+    simp only [evCount] at h1 h2
+    rw [hz]
+    exact ⟨by simpa using h1, fun h => by simpa using h2 h⟩
+
+theorem uniq_irun (env : Env) (vr : Variant) (m0 : Ref → Option Val) (ops : List Op) (s : IState)
+    (sched : List Actor) (hinv : Inv m0 ops s) (hu : Uniq s) : Uniq (irun env vr ops s sched) := by
+  induction sched generalizing s with
+  | nil => exact hu
+  | cons a rest ih =>
+    simp only [irun]
+    cases h : istep env vr ops s a with
+    | none => exact ih s hinv hu
+    | some s' => exact ih s' (inv_step env vr m0 ops s s' a hinv h) (uniq_step env vr m0 ops s s' a hinv hu h)
 
 /-! ## Part 2 — the commit protocol over an atomic compare-and-swap register -/
 
